@@ -273,3 +273,41 @@ B('C15', 'forwarded twice', (LI, "            self._callable(Event(event.event.n
 B('C15', 'also forwards consumed events', (LI, "        if event.name == 'event sent':", "        if event.name in ('event sent', 'event consumed'):"))
 B('C15', 'queue drops all but the first event', (D, "            event = Event(event, **parameters) if isinstance(event, str) else event\n            self._queue_event(event)", "            event = Event(event, **parameters) if isinstance(event, str) else event\n            self._queue_event(event)\n            break"))
 T('C15', 'flipped equality', (LI, "        if event.name == 'event sent':", "        if 'event sent' == event.name:"))
+
+# ---------------------------------------------------------------- C14
+B('C14', 'start() re-bases while running', (CK, "        if not self._play:\n            self._base = time()\n            self._play = True", "        self._base = time()\n        self._play = True"))
+B('C14', 'speed written before the fold', (CK, "        self._time += self._elapsed\n        self._base = time()\n        self._speed = speed", "        self._speed = speed\n        self._time += self._elapsed\n        self._base = time()"))
+B('C14', 'stop() clears _play before the fold', (CK, "            self._time += self._elapsed\n            self._play = False", "            self._play = False\n            self._time += self._elapsed"))
+B('C14', 'write before the ValueError', (CK, "        current_time = self.time\n        if new_time < current_time:", "        current_time = self.time\n        self._base = time()\n        if new_time < current_time:"))
+B('C14', '<= in the monotonicity test', (CK, "if new_time < current_time:", "if new_time <= current_time:"))
+B('C14', '_elapsed not gated by _play', (CK, "return (time() - self._base) * self._speed if self._play else 0", "return (time() - self._base) * self._speed"))
+B('C14', 'SynchronizedClock reads the followed clock', (CK, "        return self._interpreter.time", "        return self._interpreter.clock.time"))
+B('C14', 'assignment without re-base', (CK, "        self._time = new_time\n        self._base = time()", "        self._time = new_time"))
+B('C14', 'speed change without re-base', (CK, "        self._time += self._elapsed\n        self._base = time()\n        self._speed = speed", "        self._time += self._elapsed\n        self._speed = speed"))
+B('C14', 'speed change without fold', (CK, "        self._time += self._elapsed\n        self._base = time()\n        self._speed = speed", "        self._base = time()\n        self._speed = speed"))
+B('C14', 'monotonicity checked against _time only', (CK, "        current_time = self.time\n        if new_time < current_time:", "        current_time = self._time\n        if new_time < current_time:"))
+B('C14', 'elapsed divides by speed', (CK, "return (time() - self._base) * self._speed if self._play else 0", "return (time() - self._base) / self._speed if self._play else 0"))
+B('C14', 'stop without fold', (CK, "            self._time += self._elapsed\n            self._play = False", "            self._play = False"))
+T('C14', 'flipped monotonicity test', (CK, "if new_time < current_time:", "if current_time > new_time:"))
+T('C14', 'commuted elapsed', (CK, "return (time() - self._base) * self._speed if self._play else 0", "return self._speed * (time() - self._base) if self._play else 0"))
+
+# ---------------------------------------------------------------- C11
+B('C11', 'on entry / on exit swapped in the importer', (DD, "    on_entry = state_d.get('on entry', None)  # type: Optional[str]", "    on_entry = state_d.get('on exit', None)  # type: Optional[str]"), (DD, "    on_exit = state_d.get('on exit', None)  # type: Optional[str]", "    on_exit = state_d.get('on entry', None)  # type: Optional[str]"))
+B('C11', 'before/after swapped in the state importer', (DD, "        if condition.get('before', None):\n            state.preconditions.append(condition['before'].strip())\n        elif condition.get('after', None):\n            state.postconditions.append(condition['after'].strip())", "        if condition.get('before', None):\n            state.postconditions.append(condition['before'].strip())\n        elif condition.get('after', None):\n            state.preconditions.append(condition['after'].strip())"))
+B('C11', 'before/after swapped in the transition exporter', (DD, "                    for condition in preconditions:\n                        conditions.append({'before': condition})\n                    for condition in postconditions:\n                        conditions.append({'after': condition})\n                    for condition in invariants:\n                        conditions.append({'always': condition})\n                    transition_data['contract'] = conditions", "                    for condition in preconditions:\n                        conditions.append({'after': condition})\n                    for condition in postconditions:\n                        conditions.append({'before': condition})\n                    for condition in invariants:\n                        conditions.append({'always': condition})\n                    transition_data['contract'] = conditions"))
+B('C11', 'memory not exported for deep history', (DD, "        data['type'] = 'deep history'\n        if state.memory:\n            data['memory'] = state.memory", "        data['type'] = 'deep history'"))
+B('C11', 'low mapped to high', (DD, "    if priority == 'low':\n        priority = Transition.LOW_PRIORITY", "    if priority == 'low':\n        priority = Transition.HIGH_PRIORITY"))
+B('C11', 'target stripped but not name', (DD, "        transition_d.get('target', None),\n        event.strip()", "        transition_d.get('target', None).strip() if transition_d.get('target', None) else None,\n        event.strip()"))
+B('C11', 'F1 reverted', (EL, "return self.on_entry == other.on_entry and self.on_exit == other.on_exit", "return self.on_entry == other.on_exit and self.on_exit == other.on_exit"))
+B('C11', 'key missing from SCHEMA', (YM, "        schema.Optional('memory'): schema.Use(str),\n", ""))
+B('C11', 'initial not exported', (DD, "    if isinstance(state, CompoundState):\n        if state.initial:\n            data['initial'] = state.initial\n", ""))
+B('C11', 'type strings swapped on export', (DD, "    if isinstance(state, ShallowHistoryState):\n        data['type'] = 'shallow history'", "    if isinstance(state, ShallowHistoryState):\n        data['type'] = 'deep history'"), (DD, "    elif isinstance(state, DeepHistoryState):\n        data['type'] = 'deep history'", "    elif isinstance(state, DeepHistoryState):\n        data['type'] = 'shallow history'"))
+B('C11', 'guard exported under action', (DD, "                if transition.guard:\n                    transition_data['guard'] = transition.guard", "                if transition.guard:\n                    transition_data['guard'] = transition.action"))
+B('C11', 'parallel states exported for compound', (DD, "        if isinstance(state, CompoundState):\n            data['states'] = children_data\n        elif isinstance(state, OrthogonalState):\n            data['parallel states'] = children_data", "        if isinstance(state, CompoundState):\n            data['parallel states'] = children_data\n        elif isinstance(state, OrthogonalState):\n            data['states'] = children_data"))
+B('C11', 'Transition equality ignores priority', (EL, "                and self.action == other.action\n                and self.priority == other.priority", "                and self.action == other.action"))
+B('C11', 'event not stripped', (DD, "        event.strip() if event else None,", "        event if event else None,"))
+B('C11', 'preamble imported as description', (DD, "                            description=data.get('description', None),\n                            preamble=data.get('preamble', None))", "                            description=data.get('preamble', None),\n                            preamble=data.get('description', None))"))
+B('C11', 'schema priority admits medium', (YM, "schema.Or(schema.Use(int), 'high', 'low')", "schema.Or(schema.Use(int), 'high', 'low', 'medium')"))
+B('C11', 'BasicState equality ignores actions', (EL, "        if isinstance(other, BasicState):\n            return (\n                ContractMixin.__eq__(self, other)\n                and StateMixin.__eq__(self, other)\n                and ActionStateMixin.__eq__(self, other)\n", "        if isinstance(other, BasicState):\n            return (\n                ContractMixin.__eq__(self, other)\n                and StateMixin.__eq__(self, other)\n"))
+B('C11', 'exit code exported when entry code is set', (DD, "        if state.on_exit:\n            data['on exit'] = state.on_exit", "        if state.on_entry:\n            data['on exit'] = state.on_exit"))
+T('C11', 'renamed importer locals', (DD, "    event = transition_d.get('event', None)\n", "    evt = event = transition_d.get('event', None)\n"))
